@@ -131,6 +131,20 @@ class StateDom(object):
             return t
         return t[0]
 
+    def const_state(self, e):
+        """Value of a state constant expression (`states.X`, a bare imported
+        name of the states module, or a string literal); None otherwise."""
+        if isinstance(e, ast.Constant) and isinstance(e.value, str):
+            return e.value
+        if isinstance(e, ast.Attribute) and isinstance(e.value, ast.Name) \
+                and e.value.id in ('states', 'wf_states') and \
+                e.attr in self.consts:
+            return self.consts[e.attr]
+        if isinstance(e, ast.Name) and e.id in self.consts and \
+                e.id.isupper():
+            return self.consts[e.id]
+        return None
+
     # ---- predicate folding -------------------------------------------
     def pred_set(self, name):
         """States for which states.<name>(s) is True."""
